@@ -84,6 +84,17 @@ func monAfterRestart(f MonFlags, m *Mon, post *View) *Mon {
 			n.Dis[k] = v
 		}
 	}
+	if f.Vol {
+		// responses delivered on the old chain still count for C07 ("responses that provider has already delivered");
+		// what was delivered before the restart is remembered separately so that the one way in which the module is known
+		// to forget them (the genesis does not carry the volume records) can be told from any other miscount
+		for k, v := range m.Vol {
+			if n.Vol == nil {
+				n.Vol, n.VolBase = map[string]uint64{}, map[string]uint64{}
+			}
+			n.Vol[k], n.VolBase[k] = v, v
+		}
+	}
 	if f.Ctx {
 		for id, c := range post.Ctxs {
 			if n.Ctx == nil {
